@@ -183,6 +183,20 @@ class Job:
                 return "error"
             self.solver_s += r.seconds
             if expect == "info":
+                # an obligation the solver is not expected to settle (recorded as undecided when it does not).  If it is not
+                # unsat and a replay is given, the replay's concrete family is run on the real code: a reproduced failure is a
+                # violation; nothing is concluded from a clean run.
+                if r.verdict != "unsat" and replay is not None:
+                    try:
+                        fn, kw = replay if isinstance(replay, tuple) else (replay, {})
+                        ok, details = fn(frac_json(r.model) if r.verdict == "sat" else {}, **kw)
+                    except Exception as ex:  # noqa: BLE001
+                        ok, details = False, {"replay_exception": repr(ex)}
+                    if ok:
+                        self.record(name, "sat", r.seconds, bound, (note + "; " if note else "") + f"solver: {r.verdict}; failing input found by the concrete replay family")
+                        self._violation(name, r.model if r.verdict == "sat" else {"replay_family": True},
+                                        dict(details, replayer=fn.__name__, replayer_kwargs=kw, _replayed=True), finding)
+                        return "sat"
                 self.record(name, f"{r.verdict}(info)", r.seconds, bound, note)
                 return r.verdict
             if r.verdict == "unsat":
